@@ -1,7 +1,7 @@
 (* Proofs/MigrateCross.v — C04: what the version-1 ENCODER writes reaches the version-2 claims.
    Composition of Proofs/CrossDecode.v (the v1 claims type writes, the shadow struct
    reads: both schemas generated from the code) with the migrate functions. *)
-From JWT Require Import Base.Codec Model.Claims Model.Migrate Proofs.Codec Proofs.SubDecode Proofs.Claims Proofs.Migrate.
+From JWT Require Import Base.Codec Model.Claims Model.Migrate Proofs.Codec Proofs.SubDecode Proofs.Claims Proofs.Migrate Proofs.V1Codec.
 From JWT Require Import Proofs.CrossDecode.
 Open Scope string_scope.
 Open Scope Z_scope.
@@ -24,12 +24,19 @@ Proof.
     repeat split; vm_compute; reflexivity.
 Qed.
 
+(* the version-1 types hold no key sets: nothing to ask of scopes *)
+Lemma sch1_scopes_ok k st c1 : shadow_of k = Some st -> scopes_ok (sch1_of k) c1 = true.
+Proof.
+  intros Hs. apply no_keyset_scopes_ok.
+  destruct k; simpl in Hs; try discriminate Hs; vm_compute; reflexivity.
+Qed.
+
 Theorem v1_reaches_shadow : forall k st c1 j,
   shadow_of k = Some st ->
-  has_type (sch1_of k) c1 = true -> scopes_ok (sch1_of k) c1 = true -> enc (sch1_of k) c1 = Some j ->
+  has_type (sch1_of k) c1 = true -> enc (sch1_of k) c1 = Some j ->
   exists w, dec st j (preset_v1 k) = Some w /\ ag st (sch1_of k) (preset_v1 k) w c1 /\ shape st w = true.
 Proof.
-  intros k st c1 j Hs Ht Hsc He.
+  intros k st c1 j Hs Ht He. pose proof (sch1_scopes_ok k st c1 Hs) as Hsc.
   destruct (rd_generated k st Hs) as (Hrd & Hpre & Hsh & Hwf & Hen & Hks).
   destruct (cross_decode st (sch1_of k) (preset_v1 k) c1 j Hrd Hpre (W_intro _ _ Hwf Hen Hks Ht Hsc) He) as [w [Hd Ha]].
   exists w. split; [exact Hd|]. split; [exact Ha|]. exact (ag_shape st (sch1_of k) (preset_v1 k) w c1 Hsh Ha).
@@ -113,7 +120,7 @@ Qed.
    - otherwise the version-2 claims hold a value that agrees ([ag]) with the one written *)
 Theorem v1_field_reaches_v2 : forall k st c1 j p2 p1,
   shadow_of k = Some st ->
-  has_type (sch1_of k) c1 = true -> scopes_ok (sch1_of k) c1 = true -> enc (sch1_of k) c1 = Some j ->
+  has_type (sch1_of k) c1 = true -> enc (sch1_of k) c1 = Some j ->
   In (p2, p1) (expected_copies k) ->
   exists d, load_v1 k j = Some d /\
   exists x2 x0 sty r,
@@ -125,8 +132,8 @@ Theorem v1_field_reaches_v2 : forall k st c1 j p2 p1,
     | Some (o, tq, x1) => if o && is_empty x1 then x2 = x0 else ag sty tq x0 x2 x1
     end.
 Proof.
-  intros k st c1 j p2 p1 Hs Ht Hsc He Hin.
-  destruct (v1_reaches_shadow k st c1 j Hs Ht Hsc He) as [w [Hd [Ha Hsh]]].
+  intros k st c1 j p2 p1 Hs Ht He Hin.
+  destruct (v1_reaches_shadow k st c1 j Hs Ht He) as [w [Hd [Ha Hsh]]].
   exists (migrate k w). split; [unfold load_v1; now rewrite Hs, Hd|].
   destruct (migrate_copies_shape k st w p2 p1 Hs Hsh Hin) as [Hcp _].
   assert (Hp : exists sty rt, getp_ty st p1 = Some sty /\ wty 8 (sch1_of k) p1 = Some rt).
